@@ -86,7 +86,7 @@ impl Probe {
     // sorted insertion (binary_search_by closure; assumed): the record joins the probe's records
     #[verifier::external_body]
     pub fn insert_record(&mut self, record: DnsRecordBox)
-        ensures final(self).records@.to_multiset() == old(self).records@.to_multiset().insert(record), final(self).waiting_services == old(self).waiting_services, final(self).start_time == old(self).start_time, final(self).next_send == old(self).next_send,
+        ensures (exists|pos: int| 0 <= pos <= old(self).records@.len() && final(self).records@ == old(self).records@.insert(pos, record) && #[trigger] final(self).records@[pos] == record), final(self).waiting_services == old(self).waiting_services, final(self).start_time == old(self).start_time, final(self).next_send == old(self).next_send,
     { unimplemented!() }
     #[verifier::external_body]
     pub fn new(start_time: u64) -> (r: Self)
@@ -157,4 +157,33 @@ pub proof fn lemma_filter_step<T>(s: Seq<T>, i: int, p: spec_fn(T) -> bool)
     assert(t.drop_last() == s.take(i));
     assert(t.last() == s[i]);
     reveal_with_fuel(Seq::filter, 2);
+}
+
+// ---- is_probing_done ----
+pub uninterp spec fn same_rec(p1: int, e1: DnsEntry, p2: int, e2: DnsEntry) -> bool;
+// a record matches its own copy (every impl compares the record's own fields; see matches_spec in unit records)
+#[verifier::external_body]
+pub broadcast proof fn axiom_same_rec_refl(p: int, e: DnsEntry)
+    ensures #[trigger] same_rec(p, e, p, e),
+{}
+// the part of the record trait is_probing_done uses (matches: proved in unit records to decide "same record")
+pub trait DnsRecordExt {
+    spec fn rec(&self) -> DnsRecord;
+    spec fn payload(&self) -> int;
+    fn get_name(&self) -> (r: &str)
+        ensures r@ == rec_name(self.rec());
+    fn matches(&self, other: &DnsRecordDyn) -> (r: bool)
+        ensures r == same_rec(self.payload(), self.rec().entry, other.payload(), other.rec().entry);
+    fn clone_box(&self) -> (r: DnsRecordBox)
+        ensures r.rec() == self.rec(), r.payload() == self.payload();
+}
+#[verifier::external_body]
+pub fn vx_get_str<'a, V>(m: &'a HashMap<String, V>, k: &str) -> (r: Option<&'a V>)
+    ensures r is Some <==> m@.contains_key(key_string(k@)), r is Some ==> *r->Some_0 == m@[key_string(k@)],
+{ unimplemented!() }
+pub open spec fn matches_one<T: DnsRecordExt>(answer: &T, l: Seq<DnsRecordBox>, n: int) -> bool {
+    exists|i: int| 0 <= i < n && same_rec(answer.payload(), answer.rec().entry, (#[trigger] l[i]).payload(), l[i].rec().entry)
+}
+pub open spec fn active_match<T: DnsRecordExt>(answer: &T, active: Map<String, Vec<DnsRecordBox>>) -> bool {
+    active.contains_key(key_string(rec_name(answer.rec()))) && matches_one(answer, active[key_string(rec_name(answer.rec()))]@, active[key_string(rec_name(answer.rec()))]@.len() as int)
 }
